@@ -440,6 +440,33 @@ def edit_histories(acc, source, spec, payload):
             acc.fail("history:detached-relation-constructed", "model-unchanged", "Relation.__init__", [], "mutated",
                      S.first_diff(before, S.snapshot_or_none(m)), dict(payload, history="detached relation constructed"))
         finish("detached-relation-constructed", m)
+    # (9) a Relation OBJECT (with its subtree) moved to another feature: detached from its owner, attached with
+    #     add_relation() while its own parent field still names the old owner, the field brought in line right
+    #     afterwards (and, second form, before attaching); (10) the same with a relation built with parent=None
+    for form in ("parent-field-after", "parent-field-before", "built-with-parent-none"):
+        m = fresh()
+        feats, rels, owner, parent = walk(m)
+        cands = [rel for rel in rels if rel.children]
+        if not cands or len(feats) < 3:
+            break
+        rel = r.choice(cands)
+        sub = set(n for c in rel.children for n in subtree_names(c))
+        dests = [g for g in feats if g.name not in sub and g is not owner[id(rel)]]
+        if not dests:
+            continue
+        q = r.choice(dests)
+        owner[id(rel)].relations.remove(rel)
+        if form == "parent-field-after":
+            q.add_relation(rel)
+            rel.parent = q
+        elif form == "parent-field-before":
+            rel.parent = q
+            q.add_relation(rel)
+        else:
+            nrel = Relation(None, list(rel.children), rel.card_min, rel.card_max)
+            q.add_relation(nrel)
+            nrel.parent = q
+        finish("relation-object-moved:" + form, m)
     # (5) a new root assigned on the same FeatureModel object; the old tree's names must be gone
     m = fresh()
     old_names = [f.name for f in walk(m)[0]]
